@@ -2,15 +2,19 @@
 from props import compile_common as cc
 
 LEVEL = 'proof'
-MODULES = ['Pysmi.Props.C08']
-LAKE_TARGETS = ['Pysmi.Props.C08']
+MODULES = ['Pysmi.Props.C08', 'Pysmi.Props.C08Closure']
+LAKE_TARGETS = ['Pysmi.Props.C08', 'Pysmi.Props.C08Closure']
 THEOREMS = [
     'Pysmi.Compile.C08_terminates',
     'Pysmi.Compile.discover_terminates_aux',
     'Pysmi.Compile.C08_nonterminating_witness',
+    'Pysmi.Compile.C08_sources_in_order',
+    'Pysmi.Compile.C08_fetch_once',
+    'Pysmi.Compile.C08_closure',
+    'Pysmi.Compile.trySources_closure',
 ]
 TECHNIQUE = 'Lean 4 theorems about a model of MibCompiler.compile over abstract component oracles; differential correspondence (status map + full call trace) against the real compile() driven by scripted doubles; oracle search'
-LEVEL_TEXT = ('Termination is proved in Lean for every configuration over any finite universe of names (all graphs: cycles, self loops, several modules per file, files named unlike their module; any sources and outcomes) by a lexicographic measure; the witness theorem shows the pre-fix loop diverges on the alias cycle. Closure, fetch-once and first-hit/source-order are not proved in Lean yet: they are decided by the oracle on every aligned scenario and pinned by the full call-trace correspondence.')
+LEVEL_TEXT = ('Termination is proved in Lean for every configuration over any finite universe of names (all graphs: cycles, self loops, several modules per file, files named unlike their module; any sources and outcomes) by a lexicographic measure; the witness theorem shows the pre-fix loop diverges on the alias cycle. Also proved, for every configuration: each source is asked for each name at most once per call; the lookups for a name go through the sources in the order they were added and stop at the first source whose file parses and registers; and, when every file holds the module it is named after, the discovery loop ends with every requested name and every imported name of every parsed module settled (parsed or recorded failed / missing), i.e. the import closure is covered. That "parsed at most once" follows from fetch-once plus one parse per successful fetch is visible in the model, not stated as a separate theorem; that each settled name ends with one of the six statuses is C07.')
 LEVEL_NOTE = ('Trusted: Lean kernel + standard axioms; the hand-written model of compile() (Model/Compile.lean), tied to '
               '/repo by the correspondence on every run; component doubles stand for readers/parser/generators/searchers/'
               'borrowers/writer (their real behaviour is the subject of other properties).')
